@@ -281,6 +281,11 @@ func Compress(source []byte, level int) []byte {
 		cwordVal = (cwordVal >> 1)
 	}
 	fastWrite(destination, cwordPtr, int(cwordVal>>1)|0x80000000, CWORD_LEN)
+	if dst < DEFAULT_HEADERLEN+9 {
+		// like the C implementation: the body of a stream is at least 9 bytes,
+		// so that a bounds-checking decompressor can always fetch a whole word
+		dst = DEFAULT_HEADERLEN + 9
+	}
 	writeHeader(destination, level, true, len(source), dst)
 
 	d2 = make([]byte, dst)
